@@ -73,6 +73,17 @@ impl Obs {
         }
     }
 
+    /// The first candidate of a list and its pre-edit text (what a commit of the default
+    /// choice would take).
+    pub fn first_candidate(&self) -> Option<(String, Option<String>)> {
+        match &self.kind {
+            ObsKind::List { cands, .. } if !cands.is_empty() => {
+                Some((cands[0].clone(), self.pre.first().and_then(|p| p.as_ref().ok().cloned())))
+            }
+            _ => None,
+        }
+    }
+
     pub fn any_nonempty_preedit(&self) -> bool {
         self.pre.iter().any(|p| matches!(p, Ok(s) if !s.is_empty()))
     }
